@@ -116,6 +116,9 @@ package snapshot
 //@   loop 0 invariant (forall j int :: 0 <= j && j < len(rangeslice) ==> rangeslice[j] != nil) && restoreTried == old(restoreTried)
 //@   loop 1 invariant[C09] restoreTried == old(restoreTried) + rangeidx + 1 && len(rangeslice) == len(task)
 //@   ensures[C09] result == nil && !o.noRestore ==> restoreTried - old(restoreTried) == len(task)
+// leftover mounts of the previous process are removed with the kernel's unmount: the backend of a freshly started process
+// has registered none of them, so asking it to unmount them can only fail (and would fail the start-up)
+//@   ensures[C09] forall k string :: unmountTried[k] == old(unmountTried[k])
 
 // ---- C08: the cleanup scan (metadata IDs against the directories on disk) runs inside a write transaction ----
 // A read transaction does not exclude a concurrent createSnapshot: a directory made after the ID map was read would be
